@@ -799,15 +799,22 @@ class NetworkGraph(AbstractBaseIR):
             taken.add(name)
             return name
 
+        # one name per source variable: a variable that enters the edge operator more than once (as the source of
+        # one connection and as the post-synaptic variable of a coupling function) is known under a single name
+        source_names = {}
+        for i, key in enumerate(sources):
+            if key not in source_names:
+                source_names[key] = _fresh(f'{key[2]}_in{i}') if multiple_inputs else _fresh(key[2])
+
         for i, (weight, sidx, tidx, (snode, sop, svar), edge_ir, edge_var_map) in \
                 enumerate(zip(weights, source_indices, target_indices, sources, edge_irs, edge_var_maps)):
 
             # define variable name strings (adjusted when multiple inputs share same target var)
+            s_str = source_names[(snode, sop, svar)]
             if multiple_inputs:
                 in_shape = (tsize,)
                 t_str = _fresh(f'{tvar}_in{i}')
                 w_str = _fresh(f'weight_in{i}')
-                s_str = _fresh(f'{svar}_in{i}')
                 sidx_str = _fresh(f'source_idx_in{i}')
                 tidx_str = _fresh(f'target_idx_in{i}')
                 args[t_str] = {'value': np.zeros(in_shape), 'dtype': 'float', 'vtype': 'variable',
@@ -815,7 +822,6 @@ class NetworkGraph(AbstractBaseIR):
             else:
                 t_str = tvar
                 w_str = _fresh('weight')
-                s_str = _fresh(svar)
                 sidx_str = _fresh('source_idx')
                 tidx_str = _fresh('target_idx')
 
@@ -904,6 +910,12 @@ class NetworkGraph(AbstractBaseIR):
                         else:
                             post_var = info['var']
                             post_op = info['op']
+                            if (tnode, post_op, post_var) in source_names:
+                                # the post-synaptic variable is the source variable of one of the
+                                # connections into this target (e.g. a recurrent coupling): it is known
+                                # to the edge operator under that source's name
+                                expr_map[ev] = f'broadcast_post({source_names[(tnode, post_op, post_var)]})'
+                                continue
                             expr_map[ev] = f'broadcast_post({post_var})'
                             source_vars[post_var] = {'sources': [post_op], 'node': tnode, 'var': post_var}
 
